@@ -8,7 +8,9 @@ Record c19_query := Q {
   q_style : bytes;
   q_first : bytes;          (* strings.Split(style, ".")[0], as Go computed it *)
   q_lower : bytes;          (* strings.ToLower of that: the oracle's answer for this call *)
-  q_kind : kind;            (* dynamic type of auto.New(style) *)
+  q_typed : bool;           (* was a renderer value seen?  true for auto.New / auto.Wrap; false for
+                               auto.Render(t, style) / auto.RenderTo(t, w, style), which return only the rendering *)
+  q_kind : kind;            (* dynamic type of auto.New(style) (meaningless when q_typed is false) *)
   q_res : res (bytes * bool) }.   (* Render() of the good table, canonicalised (Run/C17Run.v) *)
 
 (* compact form used by the harness: the first section as a length when it is
@@ -19,15 +21,24 @@ Definition rr (r : rres) : res (bytes * bool) :=
   match r with RK id => ROk id | RE e => RErr e | RP => RPanic end.
 Definition QQ (style : bytes) (f : nat + bytes) (l : option bytes) (k : kind) (r : rres) : c19_query :=
   let first := match f with inl n => firstn n style | inr b => b end in
-  Q style first (match l with Some b => b | None => map ascii_lower first end) k (rr r).
+  Q style first (match l with Some b => b | None => map ascii_lower first end) true k (rr r).
+(* the same question put to auto.Render / auto.RenderTo: only the rendering comes back *)
+Definition QR (style : bytes) (f : nat + bytes) (l : option bytes) (r : rres) : c19_query :=
+  let first := match f with inl n => firstn n style | inr b => b end in
+  Q style first (match l with Some b => b | None => map ascii_lower first end) false KOther (rr r).
 
-Record c19_step := St {
+Record c19_step := StH {
   s_reg : option (bytes * decoration);     (* the registration that led here (None for the initial state) *)
   s_obs : bool;                            (* was anything observed here?  false for the registrations of a
                                               concurrent burst (distinct names, released together): only the
                                               state after the join is looked at *)
   s_listing : list bytes;                  (* auto.ListStyles() *)
-  s_qs : list c19_query }.
+  s_qs : list c19_query;
+  s_held : list (nat * c19_query) }.       (* (k, q): the renderer auto.New(q_style) returned at step k (0-based,
+                                              an earlier step of this world), which the application kept, rendered
+                                              again NOW: a style is resolved when the renderer is made, so the
+                                              answer is the one of step k's registry whatever was registered since *)
+Definition St reg obs listing qs := StH reg obs listing qs [].
 
 (* k_bad: the child crashed, or (burst worlds) one of the throw-away bursts the
    harness judges on the spot after the recorded part lost a registration *)
@@ -56,7 +67,7 @@ Definition rendered (r : res (bytes * bool)) : bool :=
 Definition query_ok (init : registry) (ops : list op) (q : c19_query) : bool :=
   let '(k, r) := spec_resolve (fun _ => q_lower q) rr_csv rr_html rr_markdown rr_json run_body
                               (spec_named init ops) (q_style q) in
-  kind_eqb (q_kind q) k && rr_eqb (q_res q) r
+  (if q_typed q then kind_eqb (q_kind q) k else true) && rr_eqb (q_res q) r
   && match q_res q with Ok (out, true) => match out with [] => true | _ => false end | _ => true end.  (* an error comes with "" *)
 
 Definition listed_work (l : list bytes) (qs : list c19_query) : bool :=
@@ -74,22 +85,31 @@ Definition step_ok (init : registry) (ops : list op) (s : c19_step) : bool :=
   && listed_work (s_listing s) (s_qs s)
   && forallb (query_ok init ops) (s_qs s).
 
-Fixpoint steps_ok (init : registry) (ops : list op) (ss : list c19_step) : bool :=
+(* past: the histories of the steps so far, oldest first (past[k] = the registrations up to step k) *)
+Definition held_ok (init : registry) (past : list (list op)) (h : nat * c19_query) : bool :=
+  match nth_error past (fst h) with
+  | Some ops => query_ok init ops (snd h)
+  | None => false
+  end.
+
+Fixpoint steps_ok (init : registry) (ops : list op) (past : list (list op)) (ss : list c19_step) : bool :=
   match ss with
   | [] => true
   | s :: r =>
       let ops' := match s_reg s with Some (n, d) => ops ++ [OReg n d] | None => ops end in
-      (if s_obs s then step_ok init ops' s else true) && steps_ok init ops' r
+      let past' := past ++ [ops'] in
+      (if s_obs s then step_ok init ops' s && forallb (held_ok init past') (s_held s) else true)
+      && steps_ok init ops' past' r
   end.
 
 Definition C19_ok (c : c19_case) : bool :=
-  negb (k_bad c) && init_ok (k_init c) && steps_ok (k_init c) [] (k_steps c).
+  negb (k_bad c) && init_ok (k_init c) && steps_ok (k_init c) [] [] (k_steps c).
 
 (* ---- the model on the same questions *)
 Definition query_corr (reg : registry) (q : c19_query) : bool :=
   let lw := fun _ : bytes => q_lower q in
   match wrap lw reg (q_style q) with
-  | Ok r => kind_eqb (q_kind q) (kind_of r)
+  | Ok r => (if q_typed q then kind_eqb (q_kind q) (kind_of r) else true)
             && rr_eqb (q_res q) (render rr_csv rr_html rr_markdown rr_json run_body r)
   | _ => false
   end
@@ -97,32 +117,51 @@ Definition query_corr (reg : registry) (q : c19_query) : bool :=
   && option_eqb bytes_eqb (Some (q_first q)) (hd_error (split_dot (q_style q)))
   && (if forallb is_ascii (q_first q) then bytes_eqb (q_lower q) (map ascii_lower (q_first q)) else true).  (* the ToLower oracle on ASCII *)
 
-Fixpoint steps_corr (reg : registry) (ss : list c19_step) : bool :=
+(* the model's renderer is a value made by [wrap] from the registry of its own step: a kept
+   renderer answers from past[k] *)
+Definition held_corr (past : list registry) (h : nat * c19_query) : bool :=
+  match nth_error past (fst h) with
+  | Some reg => query_corr reg (snd h)
+  | None => false
+  end.
+
+Fixpoint steps_corr (reg : registry) (past : list registry) (ss : list c19_step) : bool :=
   match ss with
   | [] => true
   | s :: r =>
       let reg' := match s_reg s with Some (n, d) => register n d reg | None => reg end in
+      let past' := past ++ [reg'] in
       (if s_obs s
        then list_eqb bytes_eqb (list_styles reg') (s_listing s)       (* incl. the sort oracle *)
             && forallb (query_corr reg') (s_qs s)
+            && forallb (held_corr past') (s_held s)
        else true)
-      && steps_corr reg' r
+      && steps_corr reg' past' r
   end.
 
 Definition C19_corr (c : c19_case) : bool :=
-  if k_bad c then true else steps_corr (k_init c) (k_steps c).
+  if k_bad c then true else steps_corr (k_init c) [] (k_steps c).
 
 Definition C19_case (c : c19_case) : N := code (C19_corr c) (C19_ok c).
 
-(* for replays: per step the model's listing and, per query, (kind, render) *)
-Fixpoint C19_model_from (reg : registry) (ss : list c19_step) : list (list bytes * list (res kind * res (bytes * bool))) :=
+(* for replays: per step the model's listing and, per query (then per kept renderer), (kind, render) *)
+Definition C19_model_q (reg : registry) (q : c19_query) : res kind * res (bytes * bool) :=
+  let w := wrap (fun _ => q_lower q) reg (q_style q) in
+  (bind w (fun x => Ok (kind_of x)), bind w (render rr_csv rr_html rr_markdown rr_json run_body)).
+
+Fixpoint C19_model_from (reg : registry) (past : list registry) (ss : list c19_step)
+  : list (list bytes * list (res kind * res (bytes * bool))) :=
   match ss with
   | [] => []
   | s :: r =>
       let reg' := match s_reg s with Some (n, d) => register n d reg | None => reg end in
+      let past' := past ++ [reg'] in
       (list_styles reg',
-       map (fun q => let w := wrap (fun _ => q_lower q) reg' (q_style q) in
-                     (bind w (fun x => Ok (kind_of x)), bind w (render rr_csv rr_html rr_markdown rr_json run_body))) (s_qs s))
-      :: C19_model_from reg' r
+       map (C19_model_q reg') (s_qs s)
+       ++ map (fun h => match nth_error past' (fst h) with
+                        | Some rg => C19_model_q rg (snd h)
+                        | None => (Panic, Panic)
+                        end) (s_held s))
+      :: C19_model_from reg' past' r
   end.
-Definition C19_model (c : c19_case) := C19_model_from (k_init c) (k_steps c).
+Definition C19_model (c : c19_case) := C19_model_from (k_init c) [] (k_steps c).
